@@ -198,21 +198,21 @@ theorem C20_task_runs_to_a_stop (st : St) (i : Nat) : rank st i ≤ 5 := rank_le
 
 /-! ## non-vacuity: the hypotheses of `C20_no_stranding` / `C20_close_drains` on a concrete history - three requests,
     one awaiting its ACK, two queued; close; the ACK wait expires: the loop is quiescent, nothing awaits an ACK, all ended -/
-example : let st := (runEvents {} [.start 1 5 true 3 3013, .start 2 1 true 1 5026, .start 3 2 false 2 7039, .close, .tick]).1
+example : let st := (runEvents {} [.start 1 5 true 3 300013, .start 2 1 true 1 500026, .start 3 2 false 2 700039, .close, .tick]).1
     st.ready = [] ∧ (st.reqs.all fun r => r.phase != .waitAck) = true ∧ (st.reqs.all fun r => r.phase == .done) = true ∧
     st.isOpen = false ∧ st.listeners = [] := by decide +kernel
 
 /-! ## non-vacuity of `C20_close_bounded`: three requests (one awaiting the ACK of its first fragment, written at
-    time 0, two queued); close: the loop comes to rest with request 1 still in its ACK wait; the timer fires at 1000 ms =
-    ACK_TIMEOUT: the loop comes to rest again and every request has ended -/
-example : let st := (runEvents {} [.start 1 5 true 3 3013, .start 2 1 true 1 5026, .start 3 2 false 2 7039]).1
+    time 0, two queued); close: the loop comes to rest with request 1 still in its ACK wait; the timer fires at
+    ACK_TIMEOUT (whatever the working tree sets it to): the loop comes to rest again and every request has ended -/
+example : let st := (runEvents {} [.start 1 5 true 3 300013, .start 2 1 true 1 500026, .start 3 2 false 2 700039]).1
     st.resetting = false ∧ (step st .close).ready = [] ∧ (step (step st .close) .tick).ready = [] ∧
     ((step st .close).reqs.any fun r => r.phase == .waitAck) = true ∧
-    (step (step st .close) .tick).now = 1000 ∧ Gen.ackTimeoutMs = 1000 := by decide +kernel
+    (step (step st .close) .tick).now = Gen.ackTimeoutMs := by decide +kernel
 
 /-! ## non-vacuity: close with a request awaiting its ACK and one queued: both end within the ACK wait -/
-example : let r := runEvents {} [.start 1 5 true 3 3013, .start 2 1 true 1 5026, .close, .tick]
-    r.2 = [[.write 1 0 0 3], [], [.closeOut], [.done 1 .runtimeError, .done 2 .runtimeError]] ∧ r.1.now = 1000 := by
+example : let r := runEvents {} [.start 1 5 true 3 300013, .start 2 1 true 1 500026, .close, .tick]
+    r.2 = [[.write 1 0 0 3], [], [.closeOut], [.done 1 .runtimeError, .done 2 .runtimeError]] ∧ r.1.now = Gen.ackTimeoutMs := by
   decide +kernel
 
 end Zboss.Host
